@@ -55,10 +55,14 @@ class XmlGenerator(TreeListener):
                 break
         items = []
         for f in ["start", "value"]:
-            val = getattr(tree, f).value
-            if val is None:
-                continue
-            items.append(E("item", E("real", value=str(val)), name=f))
+            attr = getattr(tree, f)
+            if isinstance(attr, ast.Primary):
+                if attr.value is None:
+                    continue
+                items.append(E("item", E("real", value=str(attr.value)), name=f))
+            elif attr in self.xml:
+                # not a literal: emit the expression
+                items.append(E("item", self.xml[attr], name=f))
 
         for f in ["fixed"]:
             val = getattr(tree, f).value
